@@ -177,6 +177,86 @@ def run(ctx, R):
             R.floor("r3", "output maps in %s" % m, n_maps, 1)
     fifo_rule(ctx, R)
     borrow_discipline(ctx, R)
+    pull_driven_effects(ctx, R)
+
+
+# ---- r6: trace operations are written only in response to a pull ---------------------------------------------------------
+def pull_driven_effects(ctx, R):
+    """The replay is a linear reading of the trace: an `AdvanceInputIterator` is expected exactly when the reader is pulled, an
+    `*IteratorExhausted` exactly when a pull finds the iterator empty. The tap writes these through two helper iterators; their
+    `next` is abstractly evaluated with an effect counter as the action and a two-item inner iterator: the pre-action runs once
+    per pull and before the inner pull; the end action runs once, at the first pull that returns None, never earlier and never
+    again. And nothing else may run an action: no helper / tap type in the trace module has a Drop impl (an operation written
+    when an abandoned iterator is dropped - a fold cut short by a count filter - is one the linear replay does not expect),
+    and the action fields are read in `next` only."""
+    from tfv import absint as A
+    from tfv import stdmodel as M
+    C = ctx.core
+    R.rule("r6", "helper iterators run their trace-writing action exactly at the pull that calls for it (decision table); no Drop impl "
+                 "or other function of the trace module runs it")
+    TR = INTERP + "trace::"
+    helpers = {}
+    for adt in C.adts:
+        if adt["path"].startswith(TR) and adt.get("variants"):
+            fns_ = [fl for fl in adt["variants"][0]["fields"] if (fl.get("ty") or "") in ("F", "core::option::Option<F>")]
+            inner = [fl for fl in adt["variants"][0]["fields"] if (fl.get("ty") or "") == "I"]
+            if fns_ and inner:
+                helpers[adt["path"]] = (fns_[0]["name"], inner[0]["name"], (fns_[0].get("ty") or "").startswith("core::option"))
+    R.floor("r6", "helper iterators with an action field", len(helpers), 2)
+    I = M.intrinsics()
+    for path, (act, inner, once) in sorted(helpers.items()):
+        short = path.split("::")[-1]
+        nx = [f for f in C.fns if f.get("impl_trait") == "core::iter::traits::iterator::Iterator" and f["name"] == "next"
+              and (f.get("self_ty") or "").split("<")[0] == path]
+        if len(nx) != 1:
+            R.fail("r6", "anchor:%s::next" % short, "-", "expected one Iterator::next impl for %s" % path)
+            continue
+        log = []
+
+        def action():
+            log.append("act")
+            return M.unit()
+
+        class Pulls(M.IterV):
+            def next(self):
+                log.append("pull")
+                return M.IterV.next(self)
+        try:
+            it = Pulls(["x1", "x2"])
+            me = A.Struct(path, {act: M.some(action) if once else action, inner: it})
+            cell = A.Cell(me)
+            ref = A.Ref(lambda: cell.v, lambda v: setattr(cell, "v", v))
+            outs = []
+            for _ in range(4):
+                o = A.deref(A.Interp(C, I).call_fn(nx[0], [ref]))
+                outs.append(o.variant if isinstance(o, A.Enum) else repr(o))
+                log.append("|")
+        except A.Unsupported as e:
+            R.fail("r6", "unanalysable/%s" % short, C.loc(nx[0]["sp"]), "cannot evaluate %s::next: %s (fail closed)" % (short, e))
+            continue
+        except A.PanicReached as e:
+            R.fail("r6", "panic/%s" % short, C.loc(nx[0]["sp"]), "%s::next panics: %s" % (short, e.what))
+            continue
+        got = " ".join(log)
+        want = "pull | pull | pull act | pull |" if once else "act pull | act pull | act pull | act pull |"
+        R.check(got == want and outs == ["Some", "Some", "None", "None"], "r6", "table/%s::next" % short, C.loc(nx[0]["sp"]),
+                "%s::next over a two-item iterator, four pulls: effects `%s` (results %s); expected `%s`: the trace would hold an operation the "
+                "linear replay does not expect at that point" % (short, got, outs, want), {"effects": got})
+        # who may run the action
+        for f in C.fns:
+            if not f["path"].startswith((TR, "<" + TR)) or "::tests" in f["path"] or f is nx[0]:
+                continue
+            if (f.get("self_ty") or "").split("<")[0] != path:
+                continue
+            reads = [n for n in walk(f["body"]) if n.get("k") == "field" and n.get("name") == act]
+            R.check(not reads, "r6", "action-only-in-next/%s/%s" % (short, f["path"].split("::")[-1]), C.loc(f["sp"]),
+                    "%s reads `%s.%s` outside Iterator::next (impl %s): the trace-writing action runs at a moment that is not a pull "
+                    "(e.g. when an abandoned iterator is dropped), so recorded traces of queries that stop early no longer replay"
+                    % (f["path"], short, act, f.get("impl_trait") or "inherent"))
+    drops = [f for f in C.fns if f.get("impl_trait") == "core::ops::drop::Drop" and (f.get("self_ty") or "").startswith(TR)]
+    R.check(not drops, "r6", "no-drop-effects", C.loc(drops[0]["sp"]) if drops else "-",
+            "a type of the trace module has a Drop impl (%s): effects at drop time are not driven by a pull"
+            % [f.get("self_ty") for f in drops][:3])
 
 
 # ---- r5: the tracer cell is never held across a call into the wrapped adapter ------------------------------------------
